@@ -144,8 +144,10 @@ def line_polygon_intersections(polygon, line, bound_line = (True,True)):
     crossings = [np.array(c) for c, i in ind.items()]
     # Remove duplicates and sort by distance from start of line:
     d = np.array([norm(c - line[0]) for c in crossings])
-    if len(d) > 0: d = d / max(d[-1], 1) # non-dimensionalise
-    d = d.round(decimals = 3)
+    # non-dimensionalise by polygon size (not by distance from start of line):
+    size = max([norm(p - ref) for p in polygon])
+    if len(d) > 0 and size > 0: d = (d - min(d)) / size
+    d = d.round(decimals = 6)
     d_unique, i_unique = np.unique(d, return_index = True)
     sortindex = np.argsort(d_unique)
     return [crossings[i_unique[i]] for i in sortindex]
